@@ -116,6 +116,53 @@ def extract():
             if a.get("child") == "PaddingDpStep":
                 rows.append((pre + [a["seg"]], "count"))
     rows.sort()
+    # 4. execution order of the protected steps: declaration order of HybridStep (the enum is written in
+    #    execution order), sub-steps of Aggregate / Finalize in their enums' order; DifferentialPrivacy runs
+    #    after Finalize (checked on the body of hybrid_protocol).  Only `protocol` rows (the validate gates
+    #    belong to the phase of their protocol step).  Suite c02_channels compares this order with the
+    #    order of first traffic in real runs.
+    kind_of = {tuple(p): k for p, k in rows}
+    validate_of = {}
+    for rel2, t2, m in pairs:
+        p_, v_ = path_of(m.group(1)), path_of(m.group(3))
+        if p_ is not None and v_ is not None:
+            validate_of[tuple(p_)] = v_
+    if tuple([hyb["EvalPrf"]["seg"], "malicious_protocol"]) in kind_of:
+        validate_of[(hyb["EvalPrf"]["seg"], "malicious_protocol")] = [hyb["EvalPrf"]["seg"], "validate"]
+    order = []
+    def emit(path):
+        k = kind_of.get(tuple(path))
+        if k in ("dzkp", "mac", "shuffle", "count"):
+            order.append((path, k))
+    late = []
+    for n, a in enums["HybridStep"]:
+        if n == "Aggregate":
+            for n2, a2 in enums["AggregationStep"]:
+                emit([a["seg"], a2["seg"]])
+        elif n == "Finalize":
+            for n2, a2 in enums["FinalizeSteps"]:
+                emit([a["seg"], a2["seg"]])
+        elif n == "EvalPrf":
+            emit([a["seg"], "malicious_protocol"])
+        elif n == "DifferentialPrivacy":
+            late.append([a["seg"]])
+        else:
+            emit([a["seg"]])
+    tm = read("protocol/hybrid/mod.rs")
+    mfin = re.search(r"\.finalize\(", tm)
+    mdp = re.search(r"dp_for_histogram::<", tm)
+    if mfin and mdp and mfin.start() < mdp.start():
+        record("coverage.order.dp_last", "protocol/hybrid/mod.rs", tm, mdp, "dp_for_histogram after finalize")
+        for p_ in late:
+            emit(p_)
+    else:
+        fail("coverage.order.dp_last", "expected `.finalize(` before `dp_for_histogram::<` in hybrid_protocol")
+    missing = [p for p, k in rows if k in ("dzkp", "mac", "shuffle", "count") and (p, k) not in order]
+    if missing:
+        fail("coverage.order", f"protected steps without a position in the execution order: {missing}")
+    m0 = re.search(r"enum\s+HybridStep", t)
+    record("coverage.order", rel, t, m0, [("/".join(p), k) for p, k in order])
+    # 5. gates on which values are opened (two-copy reveal): step names starting with `reveal` outside validate steps
     lines = [
         "/-! GENERATED by tools/extractors/c02_coverage.py from ipa-core/src/protocol/hybrid/*.rs — do not edit. -/",
         "namespace IpaVerif.Generated",
@@ -124,5 +171,17 @@ def extract():
         "def coverageTable : List (List String × String) := [",
     ]
     lines += ["  (" + "[" + ", ".join('"%s"' % s for s in p) + "]" + ', "%s")' % k + ("," if i + 1 < len(rows) else "") for i, (p, k) in enumerate(rows)]
+    lines += ["]", ""]
+    def lst(p):
+        return "[" + ", ".join('"%s"' % x for x in p) + "]"
+    lines += ["/-- the protected steps of the hybrid query in execution order (declaration order of `HybridStep` and of its",
+              "child enums; `dp` after `finalize`), each with the mechanism protecting it -/",
+              "def phaseOrder : List (List String × String) := ["]
+    lines += ["  (" + lst(p) + ', "%s")' % k + ("," if i + 1 < len(order) else "") for i, (p, k) in enumerate(order)]
+    lines += ["]", "",
+              "/-- `MaliciousProtocolSteps { protocol, validate }` pairings: protocol step -> validate step -/",
+              "def validateOf : List (List String × List String) := ["]
+    vo = sorted(validate_of.items())
+    lines += ["  (" + lst(list(p)) + ", " + lst(v) + ")" + ("," if i + 1 < len(vo) else "") for i, (p, v) in enumerate(vo)]
     lines += ["]", "", "end IpaVerif.Generated", ""]
     return {"Coverage.lean": "\n".join(lines)}
